@@ -15,8 +15,9 @@ VARIABLES g,      \* build phase
           meta,   \* per file operand: [tok, kind, ncls]
           pcl,    \* pattern class
           pform,  \* pattern form category
+          rcl,    \* class of the second pattern ("@r")
           stdin   \* kind of the data on standard input
-gvars == <<g, cnt, cat, dd, meta, pcl, pform, stdin>>
+gvars == <<g, cnt, cat, dd, meta, pcl, pform, rcl, stdin>>
 
 \* weights by repetition: the simulator picks uniformly among the generated successors
 OptCats == <<"pass", "pass", "mode", "label", "label", "label", "list", "list", "ctx", "ctx", "max", "special">>
@@ -43,10 +44,20 @@ PatForms(c) ==
       [] c = "dd"      -> { <<"--", "@p">>, <<"--", "-@p">> }
       [] c = "two"     -> { <<"-e", "@p", "-e", "@r">>, <<"-e@r", "--regexp=@p">> }
       [] c = "missing" -> { <<>>, <<"-e">>, <<"--regexp">>, <<"-A">> }
-PatClasses == {"plain", "quote", "dquote", "subst", "btick", "semi", "ampipe", "bslash", "glob", "newline", "bad"}
+\* words over the alphabet of the script's own escaping code (xzgrep.in "escape": the sentinel letter X, the single
+\* quote, newline) plus a command, in all orders of length 2..3:  X = "X", q = "'", n = newline, c = ";touch CANARY;"
+EscAlpha == {"X", "q", "n", "c"}
+RECURSIVE EscSeqs(_)
+EscSeqs(n) == IF n = 0 THEN {""} ELSE {s \o a : s \in EscSeqs(n - 1), a \in EscAlpha}
+EscClasses == {"esc:" \o s : s \in EscSeqs(2) \cup EscSeqs(3)}
+\* file names also in all orders of length 4 (e.g. X newline command quote)
+EscNames   == EscClasses \cup {"esc:" \o s : s \in EscSeqs(4)}
+HostilePatClasses == {"plain", "quote", "dquote", "subst", "btick", "semi", "ampipe", "bslash", "glob", "newline", "bad"}
+PatClasses == HostilePatClasses \cup EscClasses
 
-NameClasses == {"plain", "nl", "sq", "dq", "semi", "bs", "amp", "pipe", "subst", "btick", "glob", "colon", "space",
+HostileNames == {"plain", "nl", "sq", "dq", "semi", "bs", "amp", "pipe", "subst", "btick", "glob", "colon", "space",
                 "sqsubst", "sedmix", "bsend", "nlend", "dash", "dashopt", "dashsubst"}
+NameClasses == HostileNames \cup EscNames
 DashClasses == {"dash", "dashopt", "dashsubst"}
 
 Kinds == <<"match", "match", "match", "match", "nomatch", "nomatch", "nomatch", "plainmatch", "plainnomatch",
@@ -81,7 +92,7 @@ Keep      == UNCHANGED <<prog, labelOK, pc, args, operands, gopts, havePat, fl, 
 
 ChooseCount(ph, nxt, W) ==
     /\ Build(ph) /\ \E j \in 1..Len(W) : cnt' = W[j]
-    /\ g' = nxt /\ UNCHANGED <<argv, cat, dd, meta, pcl, pform, stdin>> /\ Keep
+    /\ g' = nxt /\ UNCHANGED <<argv, cat, dd, meta, pcl, pform, rcl, stdin>> /\ Keep
 ChooseCat(ph, nxt) ==
     /\ Build(ph) /\ cat = ""
     /\ IF cnt = 0 THEN g' = nxt /\ UNCHANGED cat
@@ -90,51 +101,63 @@ ChooseCat(ph, nxt) ==
                  /\ (OptCats[j] = "mode" => (prog = "xzgrep" /\ \A i \in 1..Len(argv) : <<argv[i]>> \notin OptVocab("mode")))
                  /\ cat' = OptCats[j]
             /\ UNCHANGED g
-    /\ UNCHANGED <<argv, cnt, dd, meta, pcl, pform, stdin>> /\ Keep
+    /\ UNCHANGED <<argv, cnt, dd, meta, pcl, pform, rcl, stdin>> /\ Keep
 AddOpt(ph) ==
     /\ Build(ph) /\ cat # "" /\ cnt > 0
     /\ \E o \in OptVocab(cat) : argv' = argv \o o
     /\ cnt' = cnt - 1 /\ cat' = ""
-    /\ UNCHANGED <<g, dd, meta, pcl, pform, stdin>> /\ Keep
+    /\ UNCHANGED <<g, dd, meta, pcl, pform, rcl, stdin>> /\ Keep
 
 ChoosePatCat ==
     /\ Build("patcat") /\ \E j \in 1..Len(PatCats) : pform' = PatCats[j]
-    /\ \E c \in PatClasses : pcl' = c
-    /\ g' = "pat" /\ UNCHANGED <<argv, cnt, cat, dd, meta, stdin>> /\ Keep
+    /\ g' = "patcl" /\ UNCHANGED <<argv, cnt, cat, dd, meta, pcl, rcl, stdin>> /\ Keep
+ChoosePatClass ==      \* about half of the patterns are esc:*
+    /\ Build("patcl")
+    /\ \E w \in 1..7, c \in PatClasses : /\ (w = 1 => c \in EscClasses) /\ (w > 1 => c \in HostilePatClasses)
+                                         /\ pcl' = c
+    /\ g' = "patrcl" /\ UNCHANGED <<argv, cnt, cat, dd, meta, pform, rcl, stdin>> /\ Keep
+ChooseSecondPatClass ==
+    /\ Build("patrcl")
+    /\ \E w \in 1..80, c \in {"never"} \cup EscClasses : (w > 1 => c = "never") /\ rcl' = c
+    /\ g' = "pat" /\ UNCHANGED <<argv, cnt, cat, dd, meta, pcl, pform, stdin>> /\ Keep
 AddPat ==
     /\ Build("pat") /\ \E p \in PatForms(pform) : argv' = argv \o p
     /\ dd' = (pform = "dd")
     /\ g' = IF pform = "missing" THEN "go" ELSE IF pform = "dd" THEN "nfiles" ELSE "o2"
-    /\ UNCHANGED <<cnt, cat, meta, pcl, pform, stdin>> /\ Keep
+    /\ UNCHANGED <<cnt, cat, meta, pcl, pform, rcl, stdin>> /\ Keep
 ChooseDD ==
     /\ Build("dd") /\ \E b \in BOOLEAN : dd' = b /\ argv' = (IF b THEN argv \o <<"--">> ELSE argv)
-    /\ g' = "nfiles" /\ UNCHANGED <<cnt, cat, meta, pcl, pform, stdin>> /\ Keep
+    /\ g' = "nfiles" /\ UNCHANGED <<cnt, cat, meta, pcl, pform, rcl, stdin>> /\ Keep
 
 Idx == <<"1", "2", "3">>
 ChooseKind ==
     /\ Build("files") /\ cat = ""
     /\ IF cnt = 0 THEN g' = (IF dd THEN "go" ELSE "o3n") /\ UNCHANGED cat
-       ELSE (\E jk \in 1..Len(Kinds) : LET kd == Kinds[jk] IN (kd = "stdin" => \A j \in 1..Len(meta) : meta[j].kind # "stdin") /\ cat' = kd) /\ UNCHANGED g
-    /\ UNCHANGED <<argv, cnt, dd, meta, pcl, pform, stdin>> /\ Keep
+       ELSE (\E jk \in 1..Len(Kinds) : LET kd == Kinds[jk] IN (kd = "stdin" => \A j \in 1..Len(meta) : meta[j].kind # "stdin")
+                                        \* the name family is chosen here: /e = escaping alphabet, /h = hostile templates
+                                        /\ \E fam \in {"/e", "/h"} : cat' = kd \o fam) /\ UNCHANGED g
+    /\ UNCHANGED <<argv, cnt, dd, meta, pcl, pform, rcl, stdin>> /\ Keep
 AddFile ==
     /\ Build("files") /\ cat # "" /\ cnt > 0
-    /\ \E sf \in Suffixes(cat), nc \in NameClasses :
+    /\ LET kd  == SubSeq(cat, 1, Len(cat) - 2)
+           fam == SubSeq(cat, Len(cat) - 1, Len(cat))
+       IN \E sf \in Suffixes(kd), nc \in (IF fam = "/e" THEN EscNames ELSE HostileNames) :
          /\ (nc \in DashClasses => dd)
-         /\ LET tok == IF cat = "stdin" THEN "-"
+         /\ LET tok == IF kd = "stdin" THEN "-"
                        ELSE (IF nc \in DashClasses THEN "-" ELSE "") \o "@" \o Idx[Len(meta) + 1] \o sf
             IN /\ argv' = Append(argv, tok)
-               /\ meta' = Append(meta, [tok |-> tok, kind |-> cat, ncls |-> nc])
+               /\ meta' = Append(meta, [tok |-> tok, kind |-> kd, ncls |-> nc])
     /\ cnt' = cnt - 1 /\ cat' = ""
-    /\ UNCHANGED <<g, dd, pcl, pform, stdin>> /\ Keep
+    /\ UNCHANGED <<g, dd, pcl, pform, rcl, stdin>> /\ Keep
 Start ==
     /\ Build("go")
     /\ \E sk \in StdinKinds : stdin' = sk
     /\ pc' = "scan" /\ args' = argv /\ ref' = RefOf(argv) /\ g' = "run"
-    /\ UNCHANGED <<prog, labelOK, argv, operands, gopts, havePat, fl, filev, exit, outcome, cnt, cat, dd, meta, pcl, pform>>
+    /\ UNCHANGED <<prog, labelOK, argv, operands, gopts, havePat, fl, filev, exit, outcome, cnt, cat, dd, meta, pcl, pform, rcl>>
 
 BuildNext ==
     \/ ChooseCount("o1n", "o1", <<0, 0, 1, 1, 1, 2, 2>>) \/ ChooseCat("o1", "patcat") \/ AddOpt("o1")
-    \/ ChoosePatCat \/ AddPat
+    \/ ChoosePatCat \/ ChoosePatClass \/ ChooseSecondPatClass \/ AddPat
     \/ ChooseCount("o2", "o2a", <<0, 0, 1>>) \/ ChooseCat("o2a", "dd") \/ AddOpt("o2a")
     \/ ChooseDD
     \/ ChooseCount("nfiles", "files", <<0, 1, 1, 2, 2, 2, 3, 3, 3>>) \/ ChooseKind \/ AddFile
@@ -152,7 +175,7 @@ GInit == /\ \E p \in {"xzgrep", "xzgrep", "xzegrep", "xzfgrep"}, lab \in BOOLEAN
          /\ fl = [l |-> FALSE, L |-> FALSE, h |-> FALSE, H |-> FALSE]
          /\ files = <<>> /\ k = 1 /\ res = 1 /\ out = <<>> /\ hist = <<>> /\ exit = 0 /\ outcome = "none"
          /\ ref = [items |-> <<>>, words |-> <<>>, err |-> FALSE]
-         /\ g = "o1n" /\ cnt = 0 /\ cat = "" /\ dd = FALSE /\ meta = <<>> /\ pcl = "plain" /\ pform = "operand"
+         /\ g = "o1n" /\ cnt = 0 /\ cat = "" /\ dd = FALSE /\ meta = <<>> /\ pcl = "plain" /\ pform = "operand" /\ rcl = "never"
          /\ stdin = "match"
 GNext == BuildNext \/ RunNext
 GSpec == GInit /\ [][GNext]_<<vars, ref, gvars>>
@@ -160,7 +183,7 @@ GSpec == GInit /\ [][GNext]_<<vars, ref, gvars>>
 Ran == outcome' \in {"ran", "killed"}
 Emit == (pc # "done" /\ pc' = "done") =>
           PrintT(<<"PLAN", ToJson([tool |-> "grep", prog |-> prog, labelOK |-> labelOK, argv |-> argv, meta |-> meta,
-                                   stdin |-> stdin, pcl |-> pcl, pform |-> pform,
+                                   stdin |-> stdin, pcl |-> pcl, rcl |-> rcl, pform |-> pform,
                                    outcome |-> outcome', exit |-> exit', out |-> out', hist |-> hist',
                                    gopts |-> gopts', fl |-> fl, files |-> files',
                                    matcher |-> IF Ran THEN Matcher' ELSE "",
